@@ -4,7 +4,12 @@ Blocks are connected with streams. A block can have zero or more input
 streams, and write to zero or more output streams.
 */
 use std::collections::VecDeque;
+#[cfg(not(feature = "verif"))]
 use std::sync::{Arc, Condvar, Mutex};
+#[cfg(feature = "verif")]
+use std::sync::Arc;
+#[cfg(feature = "verif")]
+use crate::verif::sync::{Condvar, Mutex};
 
 use crate::circular_buffer;
 use crate::{Error, Float, Len, Result};
@@ -376,6 +381,28 @@ impl<T: Len> NCReadStream<T> {
 #[cfg(feature = "verif")]
 mod verif_hooks {
     use super::*;
+    use crate::verif::{Point, yield_point};
+    // Dropping a stream end is a scheduling point (it is what peers observe as "closed").
+    impl<T> Drop for ReadStream<T> {
+        fn drop(&mut self) {
+            yield_point(Point::DropEnd);
+        }
+    }
+    impl<T> Drop for WriteStream<T> {
+        fn drop(&mut self) {
+            yield_point(Point::DropEnd);
+        }
+    }
+    impl<T> Drop for NCReadStream<T> {
+        fn drop(&mut self) {
+            yield_point(Point::DropEnd);
+        }
+    }
+    impl<T> Drop for NCWriteStream<T> {
+        fn drop(&mut self) {
+            yield_point(Point::DropEnd);
+        }
+    }
     impl<T> ReadStream<T> {
         /// Number of handles (stream ends + live windows) on this stream.
         #[must_use]
